@@ -4,7 +4,7 @@ set -e
 cd "$(dirname "$0")"
 mkdir -p .work evidence
 export PYTHONPATH=/repo PYTHONHASHSEED=0 PYTHONDONTWRITEBYTECODE=1 PYTHONWARNINGS=ignore
-if [ -f harness/gen_tables.py ]; then /venv/bin/python -B harness/gen_tables.py || true; fi
+for g in harness/gen_*.py; do [ -f "$g" ] && { /venv/bin/python -B "$g" || true; }; done
 ./tools/mkcoqproject.sh
 cd coq
 # -k: a file of a property still under construction must not stop the claimed ones from building
